@@ -161,7 +161,12 @@ async def next_step_settled(sim: SimRunner, world: World) -> bool:
         if sim.next_steps and sim.next_steps[0] == sim.progress.time:
             return True
         else:
-            await_time = sim.next_steps[0] if sim.next_steps else TieredTime(world.until) + sim.from_world_time
+            # Never wait for more than the end of the simulation: a step
+            # that was requested for a time at or after *until* (e.g. by
+            # set_initial_event) is never performed.
+            await_time = TieredTime(world.until) + sim.from_world_time
+            if sim.next_steps and sim.next_steps[0] < await_time:
+                await_time = sim.next_steps[0]
             waiters = [
                 asyncio.create_task(sim.progress.has_reached(await_time)),
                 asyncio.create_task(sim.newer_step.wait()),
